@@ -12,7 +12,10 @@ Hostile == {"garbage", "bad_version", "bad_magic", "oversized", "datalen_short",
             \* every header field at a boundary value; a negative annotation chunk length; a message cut short followed by a
             \* reset instead of an orderly close; a reset on an idle connection; a message cut short followed by silence
             \* (meaningful with a communication timeout only)
-            "hdr_boundary", "ann_negative", "trunc_reset", "reset_idle", "stall_partial"}
+            "hdr_boundary", "ann_negative", "trunc_reset", "reset_idle", "stall_partial",
+            \* a streamed result is requested and then abandoned (the connection is dropped; stream lifetime and linger are
+            \* configured in the configurations that have a communication timeout)
+            "stream_abandon"}
 Steps == [a : {"attack"}, who : {1, 2}, item : Hostile, pre : BOOLEAN]
          \cup [a : {"wcall", "aclose1", "aclose2", "fresh"}, who : {0}, item : {""}, pre : {FALSE}]
 VARIABLE h
